@@ -22,7 +22,7 @@ def run(ck, prog):
     ck.assumptions += ["float evaluation differs from the exact rational value by rounding only (not analysed)",
                        "the three masks >0, <0, ==0 partition the charge pattern (entries are -1, 0, 1 by the "
                        "charge-map obligation)"]
-    check_charge_map(ck, prog)
+    ck.attempt(check_charge_map, ck, prog)
     pair = Pair(prog)
     # sigma
     f, code = pair.code_rows(SEQ, "Sequence.sigma")
@@ -54,7 +54,7 @@ def run(ck, prog):
         ref_x = expand_small_windows(ref_x, pair.code.wsums, domain=_dom())
     compare_tables(ck, "ALG", SEQ_PATH + ":Sequence.delta", code_x, ref_x, "delta",
                    where=f.loc(), domain=_dom(), norm=empty_sum_norm(pair.code.wsums), note="(deltaForm(5) + deltaForm(6)) / 2")
-    check_api(ck, prog, [("get_delta", "delta", None)])
+    ck.attempt(check_api, ck, prog, [("get_delta", "delta", None)])
     ck.floor("window sums", len(pair.code.wsums), 2)
 
 
